@@ -551,12 +551,17 @@ def monitor_history(ops, obs):
         # C01: a block nobody owns any more must have been released in this op
         for b in list(live):
             if owners(post, b) == 0 and b not in leaked_ok:
-                fails.append((i, ["C01"], "block b%d has no owning handle left but was not released (leak)" % b))
+                fails.append((i, ["C01", "C07"] if st.startswith("panic") else ["C01"],
+                              "block b%d has no owning handle left but was not released (leak)" % b))
                 leaked_ok.add(b)
         # C04: the reported count equals the number of owning handles
         for k, s in post.items():
             if s["cnt"].isdigit() and int(s["cnt"]) != owners(post, s["blk"]):
-                fails.append((i, ["C04"], "slot s%d reports count %s but %d owning handle(s) refer to b%d" % (k, s["cnt"], owners(post, s["blk"]), s["blk"])))
+                # after a panicking call an inaccurate count is also C07's "every surviving handle is
+                # still valid with an accurate count"
+                fails.append((i, ["C04", "C07"] if st.startswith("panic") else ["C04"],
+                              "slot s%d reports count %s but %d owning handle(s) refer to b%d%s" % (
+                                  k, s["cnt"], owners(post, s["blk"]), s["blk"], " (after a panic in user code)" if st.startswith("panic") else "")))
         for m in re.finditer(r"cnt=([\d|]+);", o["out"]):
             pass  # in-callback counts are compared below with the pre-state
         # per-op property monitors need the source slot before the op
@@ -669,6 +674,14 @@ def monitor_history(ops, obs):
                 fails.append((i, ["C10"], "into_thin changed what is seen: %s -> %s" % (a, post[src])))
             if st.startswith("panic") and (src in post or owners(post, a["blk"]) != owners(pre, a["blk"]) - 1):
                 fails.append((i, ["C10"], "into_thin refused but did not release exactly its argument"))
+            if st.startswith("panic"):
+                rest = [s2 for s2 in post.values() if s2["blk"] == a["blk"] and s2["cnt"].isdigit()]
+                for s2 in rest:
+                    if int(s2["cnt"]) != owners(post, a["blk"]):
+                        fails.append((i, ["C10"], "into_thin refused with a panic but did not release its argument: count %s with %d owner(s) left" % (s2["cnt"], owners(post, a["blk"]))))
+                        break
+                if owners(post, a["blk"]) == 0 and not any(e.startswith("dealloc:b%d:" % a["blk"]) for e in o["ev"]):
+                    fails.append((i, ["C10"], "into_thin refused the last handle with a panic but the allocation was not released"))
         if f[0] == "cb" and len(f) > 3 and f[2] == "thinWithArcMut" and "replaced;" in o["out"] and src in pre and src in post:
             ks = [int(x.split(":")[1]) for x in f[3].split(",") if x.startswith("replace:")]
             done = o["out"].split(";")
